@@ -1,6 +1,7 @@
 package connrig
 
 import (
+	"os"
 	"testing"
 	"testing/synctest"
 	"time"
@@ -21,20 +22,22 @@ import (
 // frame that will never come again.
 //
 // Input: two honest endpoints over a lossless, ordered in-memory pipe.
-//   1. A's 33-byte ephemeral-key message is delivered to B.
-//   2. B answers with its ephemeral key and (having everything it needs)
-//      immediately with its auth frame: 33+123 bytes in flight toward A.
-//   3. Both messages are delivered to A in one piece (one TCP segment / one
-//      read of a slow reader).
+//  1. A's 33-byte ephemeral-key message is delivered to B.
+//  2. B answers with its ephemeral key and (having everything it needs)
+//     immediately with its auth frame: 33+123 bytes in flight toward A.
+//  3. Both messages are delivered to A in one piece (one TCP segment / one
+//     read of a slow reader).
+//
 // Expected: both MakeSecretConnection calls succeed.
 // Actual:   B succeeds... and then waits; A blocks reading the auth frame
-//           until its deadline expires (i/o timeout) - the connection fails.
 //
-// Run: cd /verif/sim && go1.26.8 test -vet=off -tags verif \
-//        -overlay /verif/build/overlay.json -run TestDefectEphReadAhead -v ./rigs/connrig/
+//	until its deadline expires (i/o timeout) - the connection fails.
+//
+//	Run: cd /verif/sim && VERIF_DEFECT_REPRO=1 go1.26.8 test -vet=off -tags verif \
+//	       -overlay /verif/build/overlay.json -run TestDefectEphReadAhead -v ./rigs/connrig/
 func TestDefectEphReadAhead(t *testing.T) {
-	if testing.Short() {
-		t.Skip()
+	if os.Getenv("VERIF_DEFECT_REPRO") != "1" {
+		t.Skip("set VERIF_DEFECT_REPRO=1: this test fails on the unchanged tree by design")
 	}
 	synctest.Test(t, func(t *testing.T) {
 		l := NewSimLink(0, 0)
@@ -49,9 +52,9 @@ func TestDefectEphReadAhead(t *testing.T) {
 		ra, rb := make(chan res, 1), make(chan res, 1)
 		go func() { sc, err := conn.MakeSecretConnection(l.End(0), kA); ra <- res{sc, err} }()
 		go func() { sc, err := conn.MakeSecretConnection(l.End(1), kB); rb <- res{sc, err} }()
-		synctest.Wait()              // both have written their ephemeral key
-		l.Deliver(0, l.InFlight(0))  // A's key reaches B
-		synctest.Wait()              // B has computed the challenge and written its auth frame
+		synctest.Wait()             // both have written their ephemeral key
+		l.Deliver(0, l.InFlight(0)) // A's key reaches B
+		synctest.Wait()             // B has computed the challenge and written its auth frame
 		if n := l.InFlight(1); n <= 33 {
 			t.Fatalf("expected B's key and auth frame in flight, have %d bytes", n)
 		}
